@@ -33,11 +33,11 @@ RTAGS = {
 RCORR = (1, 2, 3, 4, 5, 6, 7)
 # oracle tag -> (corr tags that must be absent, [(guard tag, finding id)])
 ORACLE_R = {
-    21: ((2,), [(201, 'C20-FINAL-OBJ-NEQ-LAST'), (202, 'C20-NO-ITER0')]),
-    22: ((3,), [(201, 'C20-FINAL-OBJ-NEQ-LAST'), (202, 'C20-NO-ITER0')]),
+    21: ((2,), [(201, 'C20-FINAL-OBJ-NEQ-LAST')]),
+    22: ((3,), [(201, 'C20-FINAL-OBJ-NEQ-LAST')]),
     23: ((4,), []), 24: ((5,), []), 25: ((), []),
-    26: ((), [(203, 'C20-NOHEADER-FIRST-ROW')]), 27: ((), [(204, 'C20-JSON-15-DECIMALS')]), 28: ((6,), []),
-    29: ((1,), [(205, 'C20-COR-READONLY')]),
+    26: ((), []), 27: ((), [(204, 'C20-JSON-15-DECIMALS')]), 28: ((6,), []),
+    29: ((1,), []),
 }
 
 
@@ -409,18 +409,13 @@ def rcase_term(ctx, spec, k, results_mod=None, perturb=None):
             + opt_text(texts.get('coi')) + '\n ' + opt_text(texts.get('phi')) + '\n '
             + ct.lst([f'({T(a)}, {ct.boolean(bool(b))})' for a, b in pfix.items()]) + '\n '
             + ct.lst([f'({T(a)}, {T(b)})' for a, b in nm.items()]) + ' ' + ct.lst([T(x) for x in rv]) + ' '
-            + ct.boolean(covstatus) + ' ' + ct.boolean(values_writable()) + '\n ' + ct.lst([wtable_term(t) for t in spec['ext']]) + '\n '
+            + ct.boolean(covstatus) + '\n ' + ct.lst([wtable_term(t) for t in spec['ext']]) + '\n '
             + wopt('cov') + ' ' + wopt('cor') + ' ' + wopt('coi') + '\n '
             + ('None' if not spec.get('phi') else '(Some ' + ct.lst([wtable_term(t) for t in spec['phi']]) + ')') + '\n '
             + wtab + ' ' + expected + ' (1#10000)%Q (1#1000000000)%Q\n ' + obs + ')')
     info['covstatus'] = covstatus
     info['covfiles'] = cf
     return term, info
-
-
-def values_writable():
-    import pandas as pd
-    return bool(pd.DataFrame([[1.0, 2.0], [3.0, 4.0]]).values.flags.writeable)
 
 
 def rename_label(lab):
@@ -480,10 +475,9 @@ def distribution(rspecs, rverdicts, rinfos):
         'cov_reported': sum(1 for i in rinfos if i.get('cov')),
         'inconclusive': sum(1 for v in rverdicts if any(t >= 1000 for t in v)),
         'guard_final_obj_differs': sum(1 for v in rverdicts if 201 in v),
-        'guard_no_iter0': sum(1 for v in rverdicts if 202 in v),
-        'guard_noheader': sum(1 for v in rverdicts if 203 in v),
+        'without_iteration_0': sum(1 for v in rverdicts if 202 in v),
+        'table_without_label_line': sum(1 for v in rverdicts if 203 in v),
         'json_close_only': sum(1 for v in rverdicts if 204 in v and 27 in v),
-        'guard_cor_readonly': sum(1 for v in rverdicts if 205 in v),
         'json_field_mismatches': sorted({b for i in rinfos for b in i.get('json_bad', [])}),
     }
 
